@@ -319,10 +319,14 @@ func hasNonNilCode(ret *ssa.Return) bool {
 
 func c05R3(p *Prog, r *Report) {
 	r.Rule("C05.R3", "settings that cannot take effect are rejected: generateConverter calls validateMethods before buildMethods; validateMethods and getOverlappingStructDefinition decide on len(Method.RawFieldSettings); parseMethodLine appends the line to RawFieldSettings whenever the setting is a field setting, and the field-setting classification covers map, ignore, autoMap, ignoreUnexported, update:ignoreZeroValueField, matchIgnoreCase, ignoreMissing", 6)
-	if fi, sf := needFunc(p, r, "generator.generateConverter"); fi != nil {
+	anchorGC := "generator.generateConverter"
+	if p.Func(anchorGC) == nil {
+		anchorGC = "generator.Generate" // generateConverter inlined
+	}
+	if fi, sf := needFunc(p, r, anchorGC); fi != nil {
 		v := callsIn(sf, false, isObj(modPath+"/generator", "", "validateMethods"))
 		b := callsIn(sf, false, isObj(modPath+"/generator", "generator", "buildMethods"))
-		if len(v) == 1 && len(b) == 1 && strictlyBefore(v[0], b[0]) {
+		if len(v) == 1 && len(b) == 1 && (strictlyBefore(v[0], b[0]) || sameIterationBefore(v[0], b[0])) {
 			r.OK("generator.generateConverter/validate before build", p.PosStr(v[0].Pos()), "validateMethods dominates buildMethods")
 		} else {
 			r.Bad("generator.generateConverter/validate before build", p.PosStr(fi.Decl.Pos()), "methods are built without (or before) validating that field settings sit on struct targets")
@@ -335,26 +339,20 @@ func c05R3(p *Prog, r *Report) {
 			continue
 		}
 		info := fi.Pkg.TypesInfo
-		// the guarding condition must be len(x.RawFieldSettings) > 0
+		// the decision must be made on len(x.RawFieldSettings) compared with 0 (any polarity / guard form)
 		ok := false
 		ast.Inspect(fi.Decl, func(n ast.Node) bool {
-			ifs, isIf := n.(*ast.IfStmt)
-			if !isIf {
+			b, isB := n.(*ast.BinaryExpr)
+			if !isB {
 				return true
 			}
-			for _, c := range conjuncts(ifs.Cond) {
-				b, isB := ast.Unparen(c).(*ast.BinaryExpr)
-				if !isB {
-					continue
-				}
-				call, isC := ast.Unparen(b.X).(*ast.CallExpr)
-				if !isC || len(call.Args) != 1 {
-					continue
-				}
-				if bi, isBi := calleeObj(info, call).(*types.Builtin); isBi && bi.Name() == "len" && isFieldSel(info, call.Args[0], modPath+"/config", "Method", "RawFieldSettings") {
-					if v, isK := constInt(info, b.Y); isK && ((b.Op == token.GTR && v == 0) || (b.Op == token.NEQ && v == 0) || (b.Op == token.GEQ && v == 1)) {
-						ok = true
-					}
+			call, isC := ast.Unparen(b.X).(*ast.CallExpr)
+			if !isC || len(call.Args) != 1 {
+				return true
+			}
+			if bi, isBi := calleeObj(info, call).(*types.Builtin); isBi && bi.Name() == "len" && isFieldSel(info, call.Args[0], modPath+"/config", "Method", "RawFieldSettings") {
+				if v, isK := constInt(info, b.Y); isK && (v == 0 && (b.Op == token.GTR || b.Op == token.NEQ || b.Op == token.EQL) || v == 1 && (b.Op == token.GEQ || b.Op == token.LSS)) {
+					ok = true
 				}
 			}
 			return true
@@ -629,4 +627,11 @@ func isNoMatchErr(v ssa.Value) bool {
 func edgeIsTrueOf(pred, succ *ssa.BasicBlock, is func(ssa.Value) bool) bool {
 	ifi, ok := pred.Instrs[len(pred.Instrs)-1].(*ssa.If)
 	return ok && is(ifi.Cond) && len(pred.Succs) == 2 && pred.Succs[0] == succ
+}
+
+// sameIterationBefore: both calls sit in the same loop body and a precedes b within one iteration
+// (a's block dominates b's block; dominance inside a loop body is per iteration).
+func sameIterationBefore(a, b ssa.CallInstruction) bool {
+	ai, bi := a.(ssa.Instruction), b.(ssa.Instruction)
+	return ai.Block().Dominates(bi.Block()) && ai.Block() != bi.Block()
 }
